@@ -257,7 +257,7 @@ impl Campaign for C06 {
     }
     fn iterate(&self, iter_seed: u64, rep: &mut ShardReport, _deadline: Instant) {
         let mut r = Rng::new(iter_seed);
-        let family_pick = r.below(6);
+        let family_pick = r.below(7);
         let params = match family_pick {
             0 | 1 => policy_family("policy-heavy"),
             2 => GenParams { family: "policy-heavy-creates", kind_w: [4, 2, 3, 12], ctor_calls_origin: true, pre_delegated: 3, ..policy_family("policy-heavy-creates") },
@@ -273,6 +273,18 @@ impl Campaign for C06 {
                 pre_delegated: 1,
                 ben_roles: &[BenRole::PlainEoa, BenRole::Absent, BenRole::Sender, BenRole::Contract],
                 poor_senders: 1,
+                ..GenParams::default()
+            },
+            4 => GenParams {
+                family: "pointer",
+                txs: (5, 14),
+                n_eoa: 6,
+                n_con: 1,
+                mix: Mix { slots: 12, ..Mix::default() },
+                kind_w: [16, 0, 0, 0],
+                hot_sender_pct: 10,
+                pointer_contract: true,
+                low_gas_pct: 0,
                 ..GenParams::default()
             },
             _ => GenParams {
